@@ -673,6 +673,62 @@ func mergeIsStrict(dir string) (bool, error) {
 //	[0] discard(): a loop `for X.parent != nil { X.readerStack = X.parent }` comes before the discardN call;
 //	[1] readMessageV2: `X.remain -= <batch size> - int(<limited reader>.N)` (what the codec consumed, not the batch size);
 //	[2] readMessageV1: `remain = sz - (n - int(<limited reader>.N))`.
+//
+// headerSizes: message_reader.go readHeader — how many bytes are read before the first message of a set can be looked
+// at, per message format: the readIntN calls (top-level `if err = r.readIntN(…); err != nil` statements) before the
+// switch on the magic byte plus those at the top level of each case.
+func headerSizes(file string) ([]string, error) {
+	fset := token.NewFileSet()
+	f, err := parser.ParseFile(fset, file, nil, 0)
+	if err != nil {
+		return nil, err
+	}
+	width := map[string]int{"readInt8": 1, "readInt16": 2, "readInt32": 4, "readInt64": 8}
+	reads := func(list []ast.Stmt) (n int) {
+		for _, st := range list {
+			is, ok := st.(*ast.IfStmt)
+			if !ok || is.Init == nil {
+				continue
+			}
+			as, ok := is.Init.(*ast.AssignStmt)
+			if !ok || len(as.Rhs) != 1 {
+				continue
+			}
+			if c, ok := as.Rhs[0].(*ast.CallExpr); ok {
+				if sel, ok := c.Fun.(*ast.SelectorExpr); ok {
+					n += width[sel.Sel.Name]
+				}
+			}
+		}
+		return n
+	}
+	for _, d := range f.Decls {
+		fd, ok := d.(*ast.FuncDecl)
+		if !ok || fd.Name.Name != "readHeader" || recvName(fd) != "messageSetReader" || fd.Body == nil {
+			continue
+		}
+		var out []string
+		for i, st := range fd.Body.List {
+			sw, ok := st.(*ast.SwitchStmt)
+			if !ok {
+				continue
+			}
+			base := reads(fd.Body.List[:i])
+			for _, cc := range sw.Body.List {
+				cl := cc.(*ast.CaseClause)
+				for _, e := range cl.List {
+					if lit, ok := e.(*ast.BasicLit); ok && lit.Kind == token.INT {
+						out = append(out, fmt.Sprintf("(%s, %d)", lit.Value, base+reads(cl.Body)))
+					}
+				}
+			}
+			return out, nil
+		}
+		return nil, fmt.Errorf("readHeader: no switch on the magic byte")
+	}
+	return nil, fmt.Errorf("messageSetReader.readHeader not found")
+}
+
 func readerStackFacts(file string) ([3]bool, error) {
 	var facts [3]bool
 	fset := token.NewFileSet()
@@ -1530,6 +1586,11 @@ func extractConnLegacy(repo, root string) error {
 		return fmt.Errorf("untranslated: %v", err)
 	}
 	fmt.Fprintf(&b, "/-- message_reader.go: discard() rewinds to the root reader; compressed v2 / v1 pushes charge `remain` with what the codec consumed -/\ndef readerStackFacts : KV.ReaderStack.Facts := { discardRewinds := %v, v2AccountsConsumed := %v, v1AccountsConsumed := %v }\n\n", rsf[0], rsf[1], rsf[2])
+	hs, err := headerSizes(filepath.Join(repo, "message_reader.go"))
+	if err != nil {
+		return fmt.Errorf("untranslated: %v", err)
+	}
+	fmt.Fprintf(&b, "/-- message_reader.go readHeader: bytes read before the first message of a set can be looked at, per magic byte -/\ndef headerSizes : List (Nat × Nat) := [%s]\n\n", strings.Join(hs, ", "))
 	// transport.go (*conn).run: a failed exchange leaves the loop before releaseConn
 	tf, err := transportDropsFailed(filepath.Join(repo, "transport.go"))
 	if err != nil {
